@@ -96,6 +96,9 @@ def gen_world(rng, i, tier):
                 sets.append([ty, s, k, rng.pick(["yes", "no", "TRUE", "0"])])
             else:
                 sets.append([ty, s, k, rng.pick([0.5, -3.25, 1e20, 123456.0])])
+        if rng.chance(0.06):
+            # the first line of the written file starts with EF BB BF - bytes of a key, not a mark to be dropped
+            sets.insert(0, ["String", None, "\xef\xbb\xbf" + rng.pick(["name", "k", "\xef\xbb\xbf"]), gen_value(rng, d, c, ex)])
         w["sets"] = sets
     else:
         D = d if d != " " else rng.pick([" "])
